@@ -524,6 +524,8 @@ PROPS = {
                                 "stops when idle"),
         "trusted": ["the harness' executor (a task is polled only when woken; a lost wake-up therefore shows as an incomplete operation "
                     "at quiescence); the fake broker of scenario A; which operations count as waiting for the broker only",
+                    "the composed system of the serial-reply theorems assumes order-preserving queues per connection and no reuse of an open serial "
+                    "(the latter is checked on every `cs` line); "
                     "the composed invariant (the broker emits serial-less messages only in client states that accept them) is sampled by "
                     "scenarios B and F, not proved"],
     },
